@@ -614,9 +614,14 @@ class NsGen(object):
         if tags:
             if self.coin(0.3):
                 self.hit('tag-since')
-                t = ' * Since: ' + rng.choice(['1.0', '2.34', '0.1.2'])
-                if self.coin(0.15):
-                    t += ': ' + gen_doc(rng, False)
+                if self.coin(0.1):
+                    # no version number, only a description: version_doc is set, version is not
+                    t = ' * Since: ' + rng.choice(['the next stable release', 'soon', 'forever'])
+                    self.hit('tag-since-without-version')
+                else:
+                    t = ' * Since: ' + rng.choice(['1.0', '2.34', '0.1.2'])
+                    if self.coin(0.15):
+                        t += ': ' + gen_doc(rng, False)
                 tl.append(t + '\n')
             if self.coin(0.25):
                 self.hit('tag-deprecated')
@@ -2657,29 +2662,14 @@ def _run(ctx, cnt, rng, fast):
             cnt.hit('frag:write:' + real[0] + ('' if real[0] == 'ok' else ':' + real[1]))
             cnt.hit('frag:wf=%s' % k['wf'])
             cnt.case(['frag', c], nontrivial=bool(c['params']))
-            if real[0] != mw[0] or (real[0] == 'ok' and real[1] != mw[1]) or (real[0] == 'error' and real[1] != mw[1]):
-                n_dis += 1
-                if n_dis <= 3:
-                    ctx.broken.append('correspondence c07.write_callable differs: callable=%s real=%s model=%s'
-                                      % (short(c, 500), short(real[:2], 500), short(mw, 500)))
-                continue
-            if k['wf'] and k['write_ok'] and not (k['roundtrip'] and k['fixpoint']):
-                ctx.broken.append('the compiled model contradicts C07_callable_roundtrip/C07_fixpoint on %s' % short(c, 400))
-            if real[0] != 'ok':
-                continue
-            rp = rf.parse(real[1], c['klass'], i)
-            mp = norm_model_result(r['parsed'])
-            cnt.hit('frag:parse:' + (rp[0] if rp[0] == 'ok' else rp[1]))
-            if rp[0] != mp[0] or rp[1] != mp[1]:
-                n_dis += 1
-                if n_dis <= 3:
-                    d = deep_diff(rp[1], mp[1]) if rp[0] == 'ok' and mp[0] == 'ok' else [('result', rp, mp)]
-                    ctx.broken.append('correspondence c07.parse_callable differs on the written element of %s: %s'
-                                      % (short(c, 300), short(d, 500)))
-                continue
-            # the property's oracle on the real code, fragment level: what was read, written again, is the same tree
-            if rp[0] == 'ok':
-                real2 = rf.write(rp[1])
+            # the property's oracle on the REAL code, fragment level (independent of what the model says about the
+            # result: only the side conditions on the INPUT are taken from it): what was read, written again, is
+            # the same tree; the reader does not raise on what the writer produced
+            rp = None
+            if real[0] == 'ok':
+                rp = rf.parse(real[1], c['klass'], i)
+                cnt.hit('frag:parse:' + (rp[0] if rp[0] == 'ok' else rp[1]))
+                real2 = rf.write(rp[1]) if rp[0] == 'ok' else ('error', 'reader raised ' + rp[1], None)
                 same = real2[0] == 'ok' and real2[1] == real[1]
                 if k['wf']:
                     cnt.hit('frag:real-fixpoint:' + ('ok' if same else 'FAIL'))
@@ -2690,6 +2680,24 @@ def _run(ctx, cnt, rng, fast):
                                            {'kind': 'callable', 'callable': c})
                 else:
                     cnt.hit('frag:real-fixpoint(not wf):' + ('ok' if same else 'differs'))
+            if real[0] != mw[0] or (real[0] == 'ok' and real[1] != mw[1]) or (real[0] == 'error' and real[1] != mw[1]):
+                n_dis += 1
+                if n_dis <= 3:
+                    ctx.broken.append('correspondence c07.write_callable differs: callable=%s real=%s model=%s'
+                                      % (short(c, 500), short(real[:2], 500), short(mw, 500)))
+                continue
+            if k['wf'] and k['write_ok'] and not (k['roundtrip'] and k['fixpoint']):
+                ctx.broken.append('the compiled model contradicts C07_callable_roundtrip/C07_fixpoint on %s' % short(c, 400))
+            if real[0] != 'ok':
+                continue
+            mp = norm_model_result(r['parsed'])
+            if rp[0] != mp[0] or rp[1] != mp[1]:
+                n_dis += 1
+                if n_dis <= 3:
+                    d = deep_diff(rp[1], mp[1]) if rp[0] == 'ok' and mp[0] == 'ok' else [('result', rp, mp)]
+                    ctx.broken.append('correspondence c07.parse_callable differs on the written element of %s: %s'
+                                      % (short(c, 300), short(d, 500)))
+                continue
             for _ in range(2):
                 t, op = mutate_tree(rng, real[1])
                 muts.append((t, c['klass'], op))
@@ -2729,6 +2737,30 @@ def _run(ctx, cnt, rng, fast):
             cnt.hit('members:write:' + real[0] + ('' if real[0] == 'ok' else ':' + real[1]))
             cnt.hit('members:wf=%s,field_only=%s' % (r['wf'], r['field_only']))
             cnt.case(['members', ms], nontrivial=len(ms) > 1)
+            # the property's oracle on the REAL code, member level (only the side conditions on the input come from
+            # the model): what was read, written again, is the same; the reader does not raise
+            rp = None
+            if real[0] == 'ok':
+                rp = rf.parse_members(real[1], union)
+                cnt.hit('members:parse:' + (rp[0] if rp[0] == 'ok' else rp[1]))
+                if r['wf']:
+                    real2 = rf.write_members(rp[1], union) if rp[0] == 'ok' else ('error', 'reader raised ' + rp[1], None)
+                    same = real2[0] == 'ok' and real2[1] == real[1]
+                    if same:
+                        cnt.hit('members:real-fixpoint:ok')
+                    else:
+                        what = ('the members of a %s are not a write fixed point on the real code: %s; members=%s'
+                                % ('union' if union else 'record',
+                                   short(deep_diff(real[1], real2[1]) if real2[0] == 'ok' else real2[:2], 400), short(ms, 600)))
+                        rep = {'kind': 'members', 'members': ms, 'union': union}
+                        if not r['field_only']:
+                            cnt.hit('members:real-fixpoint:pending(anonymous member before an array length)')
+                            pending.hit('compound-array-length-misindexed', what, rep)
+                        else:
+                            cnt.hit('members:real-fixpoint:FAIL')
+                            ctx.report_failure('members:' + json.dumps(ms, sort_keys=True)[:2000], what, rep)
+                else:
+                    cnt.hit('members:not-wf')
             if real[0] != mw[0] or real[1] != mw[1]:
                 n_dis += 1
                 if n_dis <= 3:
@@ -2739,9 +2771,7 @@ def _run(ctx, cnt, rng, fast):
                 ctx.broken.append('the compiled model contradicts C07_members_roundtrip_partial on %s' % short(ms, 400))
             if real[0] != 'ok':
                 continue
-            rp = rf.parse_members(real[1], union)
             mp = norm_model_result(r['parsed'])
-            cnt.hit('members:parse:' + (rp[0] if rp[0] == 'ok' else rp[1]))
             if rp[0] != mp[0] or rp[1] != mp[1]:
                 n_dis += 1
                 if n_dis <= 3:
@@ -2749,25 +2779,6 @@ def _run(ctx, cnt, rng, fast):
                     ctx.broken.append('correspondence c07.parse_members differs on the written members of %s: %s'
                                       % (short(ms, 300), short(d, 500)))
                 continue
-            # the property's oracle on the real code, member level: what was read, written again, is the same
-            if r['wf']:
-                real2 = rf.write_members(rp[1], union) if rp[0] == 'ok' else rp
-                same = real2[0] == 'ok' and real2[1] == real[1]
-                if same:
-                    cnt.hit('members:real-fixpoint:ok')
-                else:
-                    what = ('the members of a %s are not a write fixed point on the real code: %s; members=%s'
-                            % ('union' if union else 'record',
-                               short(deep_diff(real[1], real2[1]) if real2[0] == 'ok' else real2[:2], 400), short(ms, 600)))
-                    rep = {'kind': 'members', 'members': ms, 'union': union}
-                    if not r['field_only']:
-                        cnt.hit('members:real-fixpoint:pending(anonymous member before an array length)')
-                        pending.hit('compound-array-length-misindexed', what, rep)
-                    else:
-                        cnt.hit('members:real-fixpoint:FAIL')
-                        ctx.report_failure('members:' + json.dumps(ms, sort_keys=True)[:2000], what, rep)
-            else:
-                cnt.hit('members:not-wf')
             t, op = mutate_tree(rng, {'tag': 'record', 'attrs': [], 'kids': real[1], 'text': None})
             # the content of an anonymous <record>/<union> member is read by _parse_compound again: not modelled
             if all(not k['kids'] for k in t['kids'] if k['tag'] in ('record', 'union')):
